@@ -145,6 +145,18 @@ def check(tr):
         for k, v in exp.items():
             if st[k] != v:
                 out.append(V("C12", "R4.counter_mismatch", tr, "num_trials_%s=%s but %s trials are in that state" % (k, st[k], v), end_seq))
+        # the status table against what really happened: a trial whose job was alive when stop_all was called has been
+        # stopped by it and counts as stopped (finished), whatever state the table held for it before
+        sa = next((b for b in tr.backend if b["m"] == "stop_all"), None)
+        if sa is not None and tr.exception is None and tr.world in ("mem", "local"):
+            for tt in sorted({t_ for (t_, _) in tr.runs}):
+                r = tr.runs_of(tt)[-1]
+                if r["s0"] < sa["s0"] and (r["s1"] is None or r["s1"] > sa["s0"]):
+                    seen = last.get(tt, last.get(str(tt)))
+                    if seen not in ("Stopped", "Stopping"):
+                        out.append(V("C12", "R4.status_table", tr, "trial %s was running when the run ended and was stopped by stop_all, the status table says %s" % (
+                            tt, seen), end_seq, seen=seen))
+                        break
         if st["running"] != 0:
             out.append(V("C12", "R4.running_after_end", tr, "%d trials still counted as running after run()" % st["running"], end_seq))
         nstarted = sum(1 for b in tr.backend if b["m"] == "start_trial" and b["exc"] is None and b["s1"] is not None)
